@@ -20,6 +20,10 @@ pub struct VarDecl {
     /// (`p` is over an earlier variable). Assignments that break the definition are not part of
     /// the declared space.
     pub def: Option<Pred>,
+    /// The value list as it is handed to `new_(named_)sparse_integer` when it differs from the
+    /// sorted, duplicate-free `values` (unsorted lists, repeated values); `named`: use the named
+    /// constructor.
+    pub raw: Option<(Vec<i32>, bool)>,
 }
 
 impl VarDecl {
@@ -28,6 +32,7 @@ impl VarDecl {
             values: (lb..=ub).collect(),
             kind: VarKind::Interval,
             def: None,
+            raw: None,
         }
     }
     pub fn sparse(values: &[i32]) -> Self {
@@ -38,6 +43,7 @@ impl VarDecl {
             values: v,
             kind: VarKind::Sparse,
             def: None,
+            raw: None,
         }
     }
     pub fn lit() -> Self {
@@ -45,7 +51,14 @@ impl VarDecl {
             values: vec![0, 1],
             kind: VarKind::Lit,
             def: None,
+            raw: None,
         }
+    }
+    /// A sparse variable created from the given list as it is (order and repetitions kept).
+    pub fn sparse_raw(list: &[i32], named: bool) -> Self {
+        let mut d = VarDecl::sparse(list);
+        d.raw = Some((list.to_vec(), named));
+        d
     }
     /// A literal defined by a predicate over an earlier variable.
     pub fn lit_for(p: Pred) -> Self {
@@ -53,6 +66,7 @@ impl VarDecl {
             values: vec![0, 1],
             kind: VarKind::Lit,
             def: Some(p),
+            raw: None,
         }
     }
     /// Shape given as sorted values; contiguous => interval, otherwise sparse.
@@ -69,6 +83,7 @@ impl VarDecl {
                 VarKind::Sparse
             },
             def: None,
+            raw: None,
         }
     }
     pub fn lb(&self) -> i32 {
@@ -666,7 +681,10 @@ impl Model {
             .map(|(i, v)| {
                 let k = match v.kind {
                     VarKind::Interval => format!("[{}..{}]", v.lb(), v.ub()),
-                    VarKind::Sparse => format!("{:?}", v.values),
+                    VarKind::Sparse => match &v.raw {
+                        Some((list, named)) => format!("sparse{}{:?}", if *named { "-named" } else { "" }, list),
+                        None => format!("{:?}", v.values),
+                    },
                     VarKind::Lit => match v.def {
                         Some(p) => format!("lit({p})"),
                         None => "lit".to_string(),
